@@ -7,7 +7,8 @@
   (`ModbusVerif/Generated/Facts.lean`, `Modbus.Gen.accessTables`).  This file is independent of the
   generated tables: it defines
 
-    * `Act` / `Program`     the table format (own copy; no `held` flag),
+    * `Act` / `Program`     the table format (own copy; no `held` flag; method names may carry the
+                            `Type.` prefix as long as `call`/`go` targets carry it too),
     * `flatten`             inlining of `call m` into atomic `Step`s (fuel bounded, `stuck` on failure),
     * `Thread`/`State`/`step`/`run`/`trace`   interleaving semantics of any number of threads and ONE mutex,
     * `RaceAt`              two distinct threads whose next steps conflict on a mutable field,
@@ -211,20 +212,33 @@ def heldAgrees (prog : Program) (fuel : Nat) : Bool → List (Act × Bool) → B
         heldAgrees prog fuel h rest
     | _ => (flag == h) && heldAgrees prog fuel h rest
 
-/-! ### string helpers for the instantiation (kernel-evaluable) -/
+/-! ### string helpers for the instantiation
 
-/-- `stripPre pre s = some rest` iff `s = pre ++ rest` -/
-def stripPre (pre s : String) : Option String :=
-  if pre.toList.isPrefixOf s.toList then some (String.ofList (s.toList.drop pre.length)) else none
+Kernel evaluation of `String.toList`/`String.ofList` (UTF-8 decoding/encoding) is slow; these helpers
+work on the UTF-8 bytes, which is what a string literal reduces to. -/
 
-/-- Go-exported: first character upper case -/
-def isExported (s : String) : Bool :=
-  match s.toList with
-  | c :: _ => c.isUpper
+/-- the UTF-8 bytes of `s` -/
+def bytesOf (s : String) : List UInt8 := s.toByteArray.data.toList
+
+/-- `s` starts with `pre` (bytewise; for valid UTF-8 that is the same as characterwise) -/
+def hasPrefix (pre s : String) : Bool := (bytesOf pre).isPrefixOf (bytesOf s)
+
+/-- Go-exported method key `pre ++ Name`: the first character after the prefix is an ASCII
+    upper-case letter -/
+def isExportedAfter (pre s : String) : Bool :=
+  match (bytesOf s).drop (bytesOf pre).length with
+  | b :: _ => 65 ≤ b && b ≤ 90
   | [] => false
 
-/-- select the tables of one receiver type and strip the `Type.` prefix -/
+/-- the tables of one receiver type (keys `Type.method`, kept in full) -/
 def selectType {α : Type} (pre : String) (tables : List (String × α)) : List (String × α) :=
-  tables.filterMap (fun p => (stripPre pre p.1).map (fun n => (n, p.2)))
+  tables.filter (fun p => hasPrefix pre p.1)
+
+/-- the name a `call m` / `go m` action refers to, in a table keyed by `pre ++ method` -/
+def qualify (pre : String) (k : AK) (name : String) : String :=
+  match k with
+  | .call => pre ++ name
+  | .go => pre ++ name
+  | _ => name
 
 end Modbus.Locking
